@@ -135,6 +135,12 @@ def stmt_kinds(case):
             kinds.add(s[0])
             if s[0] == 'if1' and s[2][0] in ('exit', 'cycle'):
                 kinds.add(s[2][0] + (':named' if len(s[2]) > 1 and s[2][1] else ''))
+            if s[0] == 'select' and any(not b for _, b in s[2][:-1] if True) and len(s[2]) > 1:
+                kinds.add('select:empty-nonlast-case')
+            if s[0] == 'where' and any(not b for _, b in s[1]):
+                kinds.add('where:empty-block')
+            if s[0] == 'if' and any(not b for _, b in s[1]):
+                kinds.add('if:empty-branch')
             if s[0] == 'do':
                 kinds.add('do:' + s[6])
                 if s[4] is not None and s[4][0] == 'u':
